@@ -264,3 +264,126 @@ def mutate(source, index=None, kind=None, desc=None, ordinal=0):
     except Exception:
         return None
     return new_src
+
+
+# ---- fourth family: the wrong sibling (method, string key, operator, exception class, branch) ----------------------------
+SIBLING = {"put": "put_nowait", "put_nowait": "put", "get_nowait": "get", "acquire": "release", "release": "acquire", "set": "clear",
+           "clear": "set", "append": "extend", "extend": "append", "startswith": "endswith", "endswith": "startswith",
+           "lower": "upper", "upper": "lower", "notify": "notify_all", "notify_all": "notify", "setdefault": "get",
+           "items": "keys", "values": "keys", "strip": "lstrip", "encode": "decode", "decode": "encode", "task_done": "join",
+           "is_set": "wait", "wait": "is_set", "add": "discard", "discard": "add", "remove": "append", "update": "setdefault",
+           "send_response": "send_error", "send_header": "send_response", "end_headers": "flush", "rstrip": "lstrip",
+           "isSet": "wait", "start": "run", "join": "is_alive", "popleft": "pop", "copy": "keys"}
+BUILTIN_SIB = {"any": "all", "all": "any", "min": "max", "max": "min", "str": "repr", "tuple": "list", "list": "tuple",
+               "isinstance": "issubclass", "getattr": "hasattr", "len": "id", "sorted": "list", "dict": "list", "int": "float",
+               "bool": "int", "type": "id", "hasattr": "getattr", "iter": "list", "next": "list", "set": "list"}
+EXC_SIB = {"TypeError": "ValueError", "ValueError": "TypeError", "KeyError": "IndexError", "AttributeError": "KeyError",
+           "ProtocolError": "AppError", "AppError": "ProtocolError", "TransportError": "ProtocolError",
+           "TranslationError": "ValueError", "NotImplementedError": "ValueError", "Exception": "ValueError",
+           "RuntimeError": "ValueError", "OSError": "ValueError", "IndexError": "KeyError"}
+BINOP = {ast.Add: ast.Sub, ast.Sub: ast.Add, ast.Mult: ast.Add, ast.FloorDiv: ast.Mult, ast.Div: ast.Mult}
+_LOGGING = ("debug", "info", "warning", "error", "exception", "critical", "log")
+
+
+def sites4(tree):
+    out = []
+    for fn in [n for n in ast.walk(tree) if isinstance(n, ast.FunctionDef)]:
+        skip = set()
+        for n in ast.walk(fn):
+            if isinstance(n, ast.Call) and ast.unparse(n.func).split(".")[-1] in _LOGGING:
+                for x in ast.walk(n):
+                    skip.add(id(x))
+            if isinstance(n, ast.Expr) and isinstance(n.value, ast.Constant):
+                skip.add(id(n.value))
+            if isinstance(n, ast.FunctionDef) and n is not fn:
+                for x in ast.walk(n):
+                    skip.add(id(x))           # (nested functions are visited on their own)
+        for n in ast.walk(fn):
+            if id(n) in skip:
+                continue
+            pos = "line %d col %d" % (getattr(n, "lineno", 0), getattr(n, "col_offset", 0))
+            if isinstance(n, ast.Call) and isinstance(n.func, ast.Attribute) and n.func.attr in SIBLING:
+                out.append(Site("sibling", n, "%s: `%s` (%s) calls `.%s` instead" % (fn.name, ast.unparse(n)[:50], pos, SIBLING[n.func.attr])))
+            elif isinstance(n, ast.Call) and isinstance(n.func, ast.Name) and n.func.id in BUILTIN_SIB:
+                out.append(Site("builtin", n, "%s: `%s` (%s) calls `%s` instead" % (fn.name, ast.unparse(n)[:50], pos, BUILTIN_SIB[n.func.id])))
+            elif isinstance(n, ast.Constant) and isinstance(n.value, str) and n.value and len(n.value) < 40:
+                out.append(Site("strtypo", n, "%s: string %r (%s) misspelt" % (fn.name, n.value, pos)))
+            elif isinstance(n, ast.UnaryOp) and isinstance(n.op, ast.Not):
+                out.append(Site("unnot", n, "%s: `%s` (%s) loses its `not`" % (fn.name, ast.unparse(n)[:50], pos)))
+            elif isinstance(n, ast.IfExp):
+                out.append(Site("ifexp", n, "%s: branches of `%s` (%s) swapped" % (fn.name, ast.unparse(n)[:50], pos)))
+            elif isinstance(n, ast.AugAssign) and type(n.op) in BINOP:
+                out.append(Site("augop", n, "%s: operator of `%s` (%s) changed" % (fn.name, ast.unparse(n)[:50], pos)))
+            elif isinstance(n, ast.BinOp) and type(n.op) in BINOP and not (isinstance(n.left, ast.Constant) and isinstance(n.left.value, str)):
+                out.append(Site("binop", n, "%s: operator of `%s` (%s) changed" % (fn.name, ast.unparse(n)[:50], pos)))
+            elif isinstance(n, ast.Raise) and isinstance(n.exc, ast.Call) and isinstance(n.exc.func, ast.Name) and n.exc.func.id in EXC_SIB:
+                out.append(Site("excclass", n, "%s: `%s` (%s) raises %s instead" % (fn.name, ast.unparse(n)[:50], pos, EXC_SIB[n.exc.func.id])))
+            elif isinstance(n, ast.If) and n.orelse and not (len(n.orelse) == 1 and isinstance(n.orelse[0], ast.If)):
+                out.append(Site("dropelse", n, "%s: else branch of `if %s` (%s) dropped" % (fn.name, ast.unparse(n.test)[:50], pos)))
+            elif isinstance(n, ast.Subscript) and isinstance(n.slice, ast.Slice) and isinstance(n.ctx, ast.Load):
+                out.append(Site("unslice", n, "%s: slice `%s` (%s) replaced by the whole" % (fn.name, ast.unparse(n)[:50], pos)))
+            elif isinstance(n, ast.Attribute) and isinstance(n.ctx, ast.Load) and n.attr in ("version", "_version") :
+                pass
+        for a, d in zip(fn.args.args[len(fn.args.args) - len(fn.args.defaults):], fn.args.defaults):
+            if isinstance(d, ast.Constant) and d.value is None:
+                continue
+            if isinstance(d, ast.Constant) and isinstance(d.value, (bool, int, float, str)):
+                out.append(Site("default", d, "%s: default of `%s` (%r) changed" % (fn.name, a.arg, d.value)))
+    return out
+
+
+def apply4(s):
+    n, k = s.node, s.kind
+    if k == "sibling":
+        n.func.attr = SIBLING[n.func.attr]
+    elif k == "builtin":
+        n.func.id = BUILTIN_SIB[n.func.id]
+    elif k == "strtypo":
+        n.value = n.value + "_" if n.value[-1:].isalnum() else "_" + n.value
+    elif k == "unnot":
+        n.op = ast.UAdd()           # placeholder, replaced below
+    elif k == "ifexp":
+        n.body, n.orelse = n.orelse, n.body
+    elif k in ("augop", "binop"):
+        n.op = BINOP[type(n.op)]()
+    elif k == "excclass":
+        n.exc.func.id = EXC_SIB[n.exc.func.id]
+    elif k == "dropelse":
+        n.orelse = []
+    elif k == "unslice":
+        n.slice = ast.Slice(lower=None, upper=None, step=None)
+    elif k == "default":
+        v = n.value
+        n.value = (not v) if isinstance(v, bool) else (v + 1 if isinstance(v, (int, float)) else v + "_")
+
+
+class _UnNot(ast.NodeTransformer):
+    def visit_UnaryOp(self, node):
+        self.generic_visit(node)
+        if isinstance(node.op, ast.UAdd) and getattr(node, "_unnot", False):
+            return ast.Call(func=ast.Name(id="bool", ctx=ast.Load()), args=[node.operand], keywords=[])
+        return node
+
+
+def mutate4(source, index=None, kind=None, desc=None, ordinal=0):
+    tree = ast.parse(source)
+    ss = sites4(tree)
+    if index is None:
+        cand = [i for i, s_ in enumerate(ss) if s_.kind == kind and s_.desc == desc]
+        if ordinal >= len(cand):
+            return None
+        index = cand[ordinal]
+    if index >= len(ss):
+        return None
+    s = ss[index]
+    apply4(s)
+    if s.kind == "unnot":
+        s.node._unnot = True
+        tree = _UnNot().visit(tree)
+    ast.fix_missing_locations(tree)
+    try:
+        new_src = ast.unparse(tree)
+        compile(new_src, "<mutant>", "exec")
+    except Exception:
+        return None
+    return new_src
